@@ -236,7 +236,8 @@ func singleFlightScenario(name string, threads [][]callSpec) vx.Scenario {
 				}
 			}
 		}
-		for ex, n := range freshCount {
+		for _, ex := range sortedKeys(freshCount) {
+			n := freshCount[ex]
 			if n > 1 {
 				return vx.Verdict{Class: "sf-fresh-flag", Msg: fmt.Sprintf("execution %s reported fresh to %d callers", ex, n)}
 			}
@@ -250,6 +251,15 @@ func singleFlightScenario(name string, threads [][]callSpec) vx.Scenario {
 		return vx.Verdict{Sig: strings.Join(shape, ",")}
 	}
 	return vx.Scenario{Name: name, Body: body, Check: check}
+}
+
+func sortedKeys[V any](m map[string]V) []string {
+	var ks []string
+	for k := range m {
+		ks = append(ks, k)
+	}
+	sortStrings(ks)
+	return ks
 }
 
 func sortStrings(s []string) {
@@ -407,12 +417,14 @@ func resourceManagerScenario(name string, keys [][]string, fails [][]bool) vx.Sc
 				}
 			}
 		}
-		for k, c := range created {
+		for _, k := range sortedKeys(created) {
+			c := created[k]
 			if len(c) > 1 {
 				return vx.Verdict{Class: "rm-created-twice", Msg: fmt.Sprintf("resource for key %s created successfully %d times (%v)", k, len(c), c)}
 			}
 		}
-		for k, g := range got {
+		for _, k := range sortedKeys(got) {
+			g := got[k]
 			if len(g) > 1 {
 				return vx.Verdict{Class: "rm-different-instances", Msg: fmt.Sprintf("callers of key %s received different instances %v", k, g)}
 			}
